@@ -90,6 +90,8 @@ def g_closed(s, P):
             kw['dmask'] = s.choice([1, 2])
         if fn != 'FIM' and s.chance(0.3):
             kw['bcont'] = s.choice(['array', 'tuple'])
+        if s.chance(0.12) and kw.get('bcont') != 'array':
+            kw['fold'] = True         # folded data and bootstraps: the likelihood folds the model
         P.add('C19.closed_form', fn, k, seed, ns, p0, multinom, eps, s.randint(0, 3), nboot, **kw)
     return P
 
@@ -139,7 +141,7 @@ def g_collide(s, P):
     variants = [dict(base)]
     for _ in range(s.randint(1, 3)):
         v = dict(base)
-        what = s.choice(['pts', 'ns', 'dseed', 'nboot', 'adjusts', 'p0', 'p0'])
+        what = s.choice(['pts', 'ns', 'dseed', 'nboot', 'adjusts', 'p0', 'p0', 'fold'])
         if what == 'pts':
             v['pts'] = s.choice([[12], [10, 12], [14]])
         elif what == 'ns':
@@ -148,6 +150,8 @@ def g_collide(s, P):
             v['dseed'] = s.choice([0, 2, 3])
         elif what == 'nboot':
             v['nboot'] = nboot + s.randint(1, 3)
+        elif what == 'fold':
+            v['fold'] = True
         elif what == 'p0':
             # same nested values, different values elsewhere (what a key built from the nested parameters alone cannot tell apart)
             q = list(p0)
@@ -167,6 +171,8 @@ def g_collide(s, P):
             kw['adjusts'] = v['adjusts'][:v['nboot']] + [1.0] * max(0, v['nboot'] - len(v['adjusts']))
         if s.chance(0.3):
             kw['pcont'] = 'array'
+        if v.get('fold'):
+            kw['fold'] = True
         P.add('C19.closed_form', fn, k, seed, v['ns'], list(v.get('p0', p0)), multinom, eps, v['dseed'], v['nboot'], **kw)
     return P
 
